@@ -256,6 +256,31 @@ func instrument(path string) ([]byte, bool, error) {
 		}
 		return true
 	})
+	// the file store's own file-system calls go through wrappers that can be told to fail (the
+	// environment's answer "error" to one call, see vsched.FSFault); done after the pass above,
+	// which recognises the calls by their package name
+	if strings.Contains(filepath.ToSlash(path), "/pkg/storage/file/") {
+		fsRewritten := false
+		ast.Inspect(f, func(n ast.Node) bool {
+			if call, ok := n.(*ast.CallExpr); ok {
+				if sel, ok := call.Fun.(*ast.SelectorExpr); ok {
+					if id, ok := sel.X.(*ast.Ident); ok && id.Name == "os" {
+						switch sel.Sel.Name {
+						case "Create", "Open", "Remove", "Rename":
+							sel.X = ast.NewIdent("vsched")
+							usesSched, fsRewritten = true, true
+						}
+					}
+				}
+			}
+			return true
+		})
+		if fsRewritten {
+			// the file may have used package os for nothing else
+			f.Decls = append(f.Decls, &ast.GenDecl{Tok: token.VAR, Specs: []ast.Spec{&ast.ValueSpec{
+				Names: []*ast.Ident{ast.NewIdent("_")}, Values: []ast.Expr{&ast.SelectorExpr{X: ast.NewIdent("os"), Sel: ast.NewIdent("ErrNotExist")}}}}})
+		}
+	}
 	if usesSched {
 		changed = true
 		// add import
